@@ -16,8 +16,8 @@
      generateMetadataJSON                                     -> metafile_bytes (uses Metafile.list_outputs)
 
    Unique keys are written with QuoteForJSON like every other string
-   (chunk_pre uses SQ (key_bytes ..)); DocProofs shows that this is the key
-   between quotation marks.  c_pad says whether the closing brace of the
+   (chunk_pre renders SF k i as quote_for_json (key_bytes ..)); DocProofs shows
+   that this is the key between quotation marks.  c_pad says whether the closing brace of the
    per-output inputs object is preceded by whitespace: len(metaOrder) > 0 for
    JS, len(compileResults) > 0 for CSS (which may list fewer inputs than that).
    generateExtraDataForFileJS returns the empty string outside debug builds.
@@ -64,15 +64,12 @@ Section Doc.
   Definition sp : bytes := w [32].
   Definition K (s : String.string) : ls := SR (b s).
 
-  (* how a path is written: literally, or as a unique key (strf) *)
-  Definition ls_of (strf : Z -> Z -> ls) (p : pref) : ls :=
-    match p with PLit s => SQ s | PRef k i => strf k i end.
-
-  Section Strf.
-    Variable strf : Z -> Z -> ls.
+  (* how a path is written: literally, or as a unique key *)
+  Definition ls_of (p : pref) : ls :=
+    match p with PLit s => SQ s | PRef k i => SF k i end.
 
     Definition imp_lj (i : imp) : lj :=
-      LObj ([(nl 10, K "path"%string, sp, LS (ls_of strf (i_path i)));
+      LObj ([(nl 10, K "path"%string, sp, LS (ls_of (i_path i)));
              (nl 10, K "kind"%string, sp, LS (SQ (i_kind i)))]
             ++ (if i_external i then [(nl 10, K "external"%string, sp, LTrue)] else []))
            (nl 8).
@@ -87,7 +84,7 @@ Section Doc.
                             (if is_nil (c_exports c) then [] else nl 6))]
                 else [])
             ++ match c_entry c with Some e => [(nl 6, K "entryPoint"%string, sp, LS (SQ e))] | None => [] end
-            ++ match c_css c with Some p => [(nl 6, K "cssBundle"%string, sp, LS (ls_of strf p))] | None => [] end
+            ++ match c_css c with Some p => [(nl 6, K "cssBundle"%string, sp, LS (ls_of p))] | None => [] end
             ++ [(nl 6, K "inputs"%string, sp,
                  LObj (map (fun pn => (nl 8, SQ (fst pn), sp,
                                        LObj [(nl 10, K "bytesInOutput"%string, sp, LNum (snd pn))] (nl 8)))
@@ -95,7 +92,6 @@ Section Doc.
                       (if c_pad c then nl 6 else []));
                 (nl 6, K "bytes"%string, sp, LNum (c_bytes c))])
            (nl 4).
-  End Strf.
 
   Section Link.
     Variable prefix : bytes.
@@ -104,7 +100,7 @@ Section Doc.
 
     (* what jsonMetadataChunkCallback returns *)
     Definition chunk_pre (c : chunk) : bytes :=
-      render ascii (fun _ _ => []) (chunk_lj (fun k i => SQ (key_bytes prefix k i)) c).
+      render ascii (fun k i => quote_for_json ascii (key_bytes prefix k i)) (chunk_lj c).
 
     (* the JSONMetadataChunk of the output file *)
     Definition chunk_final (c : chunk) : bytes :=
@@ -137,8 +133,9 @@ Section Doc.
           ++ with_lj 6 (in_with i))
          (nl 4).
 
-  Definition input_json (i : input) : bytes :=
-    quote_for_json ascii (in_path i) ++ 58 :: sp ++ render ascii (fun _ _ => []) (input_lj i).
+  (* (an input's text has no unique keys: rq is not used) *)
+  Definition input_json (rq : Z -> Z -> bytes) (i : input) : bytes :=
+    quote_for_json ascii (in_path i) ++ 58 :: sp ++ render ascii rq (input_lj i).
 
   (* ---- generateMetadataJSON ---- *)
   Fixpoint join_chunks (first : bool) (cs : list bytes) : bytes :=
@@ -161,5 +158,5 @@ End Doc.
    (absolute-or-relative pretty path, description) in the order of the results *)
 Definition metafile_of (mini ascii : bool) (prefix : bytes) (nf nc : Z) (pathOf : Z -> Z -> bytes)
            (ins : list input) (outs : list (bytes * chunk)) : bytes :=
-  metafile_bytes mini ascii (map (input_json mini ascii) ins)
+  metafile_bytes mini ascii (map (input_json mini ascii (fun k i => 34 :: pathOf k i ++ [34])) ins)
     (map (fun pc => (fst pc, chunk_final mini ascii prefix nf nc pathOf (snd pc))) outs).
